@@ -10,7 +10,7 @@
 From Coq Require Import NArith ZArith Lia Bool List.
 From Coq Require Import ZifyN ZifyBool.
 From MiV Require Import Gen.Consts Gen.Bins Model.Arith Model.CSem Gen.Funcs Proofs.Base Proofs.ArithSweeps Proofs.ArithProofs Proofs.BitsProofs Proofs.GenSweeps Proofs.GenSweepsB.
-From MiV Require Model.Span Model.Bitmap.
+From MiV Require Model.Span Model.Bitmap Model.Bind.
 From MiV Require Gen.FuncsCheck.   (* the constants folded by the translator, recomputed by Coq *)
 Import ListNotations.
 Local Open Scope N_scope.
@@ -526,6 +526,52 @@ Proof.
   repeat (apply andb_true_iff; split); try (apply c__mi_align_up_ok_all; discriminate).
   destruct (required =? 0); [reflexivity | apply c__mi_align_up_ok_all; discriminate].
 Qed.
+
+(* ------------------------------------------------------------------------------------------ *)
+(* arena.c: arena ids (`int`, so Z with side condition "fits in 32 bits") and block arithmetic   *)
+(* (hand models in Model/Bind.v, properties C14/C15)                                            *)
+(* ------------------------------------------------------------------------------------------ *)
+Lemma c__mi_arena_id_none_eq : c__mi_arena_id_none = Bind.arena_id_none.
+Proof. reflexivity. Qed.
+
+Lemma cast_su_nonneg z : (0 <= z < 2 ^ 64)%Z -> cast_su 64 z = Z.to_N z.
+Proof. intros H. unfold cast_su. change (Z.of_N 64) with 64%Z. rewrite Z.mod_small by lia. reflexivity. Qed.
+
+Lemma c_mi_arena_id_index_eq id : (- 2 ^ 31 <= id < 2 ^ 31)%Z ->
+  c_mi_arena_id_index id = Bind.arena_id_index id /\ c_mi_arena_id_index_ok id = true.
+Proof.
+  intros H. unfold c_mi_arena_id_index, c_mi_arena_id_index_ok, Bind.arena_id_index, MI_MAX_ARENAS.
+  destruct (Z.leb id 0) eqn:E.
+  - split; reflexivity.
+  - apply Z.leb_gt in E. split; [apply cast_su_nonneg; lia|].
+    unfold sfits. change (Z.of_N 32 - 1)%Z with 31%Z. apply andb_true_iff; split; [apply Z.leb_le | apply Z.ltb_lt]; lia.
+Qed.
+
+Lemma c_mi_arena_id_create_eq idx : idx < MI_MAX_ARENAS ->
+  c_mi_arena_id_create idx = Bind.arena_id_create idx /\ c_mi_arena_id_create_ok idx = true.
+Proof.
+  intros H. unfold MI_MAX_ARENAS in H. unfold c_mi_arena_id_create, c_mi_arena_id_create_ok, Bind.arena_id_create.
+  assert (E : cast_us 32 idx = Z.of_N idx).
+  { unfold cast_us. change (2 ^ 32) with 4294967296. change (2 ^ (32 - 1)) with 2147483648.
+    rewrite N.mod_small by lia. assert (L : (idx <? 2147483648) = true) by (apply N.ltb_lt; lia). rewrite L. reflexivity. }
+  rewrite E. split; [reflexivity|].
+  unfold sfits. change (Z.of_N 32 - 1)%Z with 31%Z. apply andb_true_iff; split; [apply Z.leb_le | apply Z.ltb_lt]; lia.
+Qed.
+
+Lemma c_mi_arena_id_is_suitable_eq aid ex req :
+  c_mi_arena_id_is_suitable aid ex req = Bind.arena_id_is_suitable aid ex req.
+Proof. first [reflexivity | unfold c_mi_arena_id_is_suitable, Bind.arena_id_is_suitable; rewrite c__mi_arena_id_none_eq; reflexivity]. Qed.
+
+Lemma c_mi_block_count_of_size_eq size : size < W64 ->
+  c_mi_block_count_of_size size = Bind.block_count_of_size size /\ c_mi_block_count_of_size_ok size = true.
+Proof.
+  intros H. unfold c_mi_block_count_of_size, c_mi_block_count_of_size_ok, Bind.block_count_of_size.
+  split; [apply c__mi_divide_up_eq; [assumption | reflexivity] | apply c__mi_divide_up_ok_all].
+Qed.
+
+Lemma c_mi_arena_block_size_spec bcount : bcount * MI_ARENA_BLOCK_SIZE < W64 ->
+  c_mi_arena_block_size bcount = bcount * MI_ARENA_BLOCK_SIZE.
+Proof. intros H. unfold c_mi_arena_block_size. apply wmul_small. exact H. Qed.
 
 (* ------------------------------------------------------------------------------------------ *)
 (* the C16 laws, stated directly about the generated functions                                  *)
